@@ -421,11 +421,12 @@ impl<'a, W: Write> Writer<'a, W> {
 
         num_bytes += self.append_raw(&num_values.try_into()?, &Schema::Long)?
             + self.append_raw(&stream_len.try_into()?, &Schema::Long)?
-            + self
-                .writer
-                .write(self.buffer.as_ref())
-                .map_err(Details::WriteBytes)?
-            + self.append_marker()?;
+            + self.buffer.len()
+            + self.marker.len();
+        self.writer
+            .write_all(self.buffer.as_ref())
+            .map_err(Details::WriteBytes)?;
+        self.append_marker()?;
 
         self.buffer.clear();
         self.num_values = 0;
@@ -477,11 +478,12 @@ impl<'a, W: Write> Writer<'a, W> {
 
     /// Generate and append synchronization marker to the payload.
     fn append_marker(&mut self) -> AvroResult<usize> {
-        // using .writer.write directly to avoid mutable borrow of self
+        // using .writer.write_all directly to avoid mutable borrow of self
         // with ref borrowing of self.marker
         self.writer
-            .write(&self.marker)
-            .map_err(|e| Details::WriteMarker(e).into())
+            .write_all(&self.marker)
+            .map_err(Details::WriteMarker)?;
+        Ok(self.marker.len())
     }
 
     /// Append a raw Avro Value to the payload avoiding to encode it again.
@@ -491,9 +493,8 @@ impl<'a, W: Write> Writer<'a, W> {
 
     /// Append pure bytes to the payload.
     fn append_bytes(&mut self, bytes: &[u8]) -> AvroResult<usize> {
-        self.writer
-            .write(bytes)
-            .map_err(|e| Details::WriteBytes(e).into())
+        self.writer.write_all(bytes).map_err(Details::WriteBytes)?;
+        Ok(bytes.len())
     }
 
     /// Adds custom metadata to the file.
